@@ -31,8 +31,15 @@ def run(ctx):
         ns = int(rng.choice([2, 3, 4], p=[.5, .3, .2]))
         layout = str(rng.choice(["interleaved", "disjoint", "disjoint-reversed", "alternating"]))
         nep = int(rng.choice([ns, ns + 1, 6, 9, 12, 20]))
+        if rng.random() < 0.06:
+            # many surveys (two-digit offset names), chronological so that the known label defect stays out
+            ns = int(rng.choice([11, 12, 14]))
+            layout = "disjoint"
+            nep = ns + int(rng.integers(0, 6))
         dspec = gen.gen_data_spec(rng, n_surveys=ns, n_epochs=max(nep, ns), layout=layout,
                                   err_scale=float(10 ** rng.uniform(-1.5, 0)))
+        if ns > 4:
+            dspec["form"], dspec["keys"] = "list", None     # the key pools of the generator hold four names
         poly = int(rng.choice([1, 2, 3], p=[.5, .3, .2]))
         ps = gen.gen_prior_spec(rng, dspec["unit"], n_offsets=ns - 1, poly_trend=poly)
         t, y, sg, lab, t_ref = gen.merged(dspec)
